@@ -704,6 +704,49 @@ pub fn correlate_px(px: &mut [[f32; 3]], seed: u64, feedback: Option<&dyn Fn([f3
     }
 }
 
+/// Row-level relations for in-place conversions that look at the row above: some row becomes the library's own
+/// result for the row above it (pixel by pixel), a copy of it, or its mirror image. When the fed-back row would leave
+/// the input domain, the row above is first replaced by a grey row (whose results are in the domain of every
+/// conversion here: (0,0,L) for HSL, (0,Y,Y) for XYB, grey for primaries).
+pub fn correlate_rows(px: &mut [[f32; 3]], w: usize, h: usize, seed: u64, feedback: &dyn Fn([f32; 3]) -> Option<[f32; 3]>, in_domain: &dyn Fn([f32; 3]) -> bool) {
+    if h < 2 || w == 0 || px.len() < w * h {
+        return;
+    }
+    let mut e = Expand(seed ^ 0x20_77E1);
+    for _ in 0..1 + e.below(2) {
+        let y = e.below(h as u64 - 1) as usize;
+        let (above, below) = px.split_at_mut((y + 1) * w);
+        let above = &mut above[y * w..];
+        let below = &mut below[..w];
+        match e.below(4) {
+            0 => below.copy_from_slice(above),
+            1 => {
+                for (i, p) in below.iter_mut().enumerate() {
+                    *p = above[w - 1 - i];
+                }
+            }
+            _ => {
+                let fb = |row: &[[f32; 3]]| -> Option<Vec<[f32; 3]>> { row.iter().map(|p| feedback(*p).filter(|q| in_domain(*q))).collect() };
+                let out = match fb(above) {
+                    Some(o) => Some(o),
+                    None => {
+                        let base = e.unit() as f32;
+                        let flat = e.below(2) == 0;
+                        for (i, p) in above.iter_mut().enumerate() {
+                            let g = if flat { base } else { ((base + i as f32 * 0.0137) % 1.0).abs() };
+                            *p = [g, g, g];
+                        }
+                        fb(above)
+                    }
+                };
+                if let Some(o) = out {
+                    below.copy_from_slice(&o);
+                }
+            }
+        }
+    }
+}
+
 /// image shapes: single pixels and tiny images often (whole-image fast paths depend on *all* pixels),
 /// otherwise w x h up to the given maxima
 pub fn shape_from(seed: u64, max_w: usize, max_h: usize) -> (usize, usize) {
